@@ -19,6 +19,11 @@ CHECKS = {
     technique='explicit-state BFS over file-event sequences on the real PolicyDirectoryMonitor and a real directory (state dedup on monitor structures + reference-model state), plus exhaustive 0/1/2-fault enumeration of policy documents against an independent parser',
     text='(i) Every sequence of up to 4 (quick) / 5 (thorough, 2 files) / 4 (thorough, 3 files) file events (write one of 9 contents, remove, and four simultaneous two-file changes; 24 events per step for 2 files) is applied to a real directory, each followed by a real scan_policies(); after every scan the store must equal the latest-loaded-definition reference model, the built-in policies must be identical objects, and nothing may be raised. (ii) Every policy document obtained from 5 documented shapes by 0, 1 or 2 structural faults at every JSON node, every truncation and character fault of the text, and a list of literal edge documents is parsed by read_policy_from_file and by an independent reference parser: valid documents must parse to the reference result, documents with a listed invalidity must be rejected, and no exception other than ValueError may escape.',
     note='mtimes are set by the harness (strictly increasing); canonical state includes the monitor structures and the model state, so merging is sound by construction; depth-bounded (the cache can grow without bound, so no fixpoint). Undocumented-but-harmless shapes (empty policy object, null/empty sections) may be accepted or rejected.'),
+ 'C07': dict(
+    category='model_checking', design_ref='DESIGN.md 4/C07',
+    technique='exhaustive depth-bounded tree of operation histories (create/register/keypair/derive/destroy by owner, permitted and denied non-owner/restart clean and kill) on the real engine with database cloning for prefix sharing',
+    text='All sequences of up to 3 (quick) / 4 (thorough) actions over a 13-letter alphabet of creating and destroying operations by several clients and of clean/kill restarts, plus the complete family create+;destroy;restart?;create(;destroy;create) of longer histories, are executed on the real engine. After every step: all identifiers ever returned are pairwise distinct, no destroyed identifier has a row, Locate by each of three identities omits it, Get on it fails ITEM_NOT_FOUND for everyone; after each Destroy and each restart the full set of 13 object-addressing operations (plus use as wrapping key) is tried on the dead identifiers by every identity, and the rows of all other objects are compared before/after the Destroy.',
+    note='Kill restart = fresh engine on the database file as it is between two requests; mid-operation crash points belong to C09. RSA generation served from a pool of real keys. Depth bound as stated.'),
 }
 
 NOT_YET = {}
